@@ -73,6 +73,13 @@ Shapes == <<
                                                          Rq("k", TRef("q", "Kind")), Op("ot", AsNullable(TRef("q", "Thing")))>>)>>),
                                     SchemaOf("q", <<Obj("q", "Thing", TStruct(<<Rq("n", TString)>>)),
                                                     Obj("q", "Kind", TEnum(<<Member("x", VStr("x"), "string"), Member("y", VStr("y"), "string")>>))>>)>>),
+  \* the SAME bare name in two packages with different definitions, referenced from one place in both orders (audit class 1)
+  Sh("ir-cross-package-same-name", {"ref"}, <<SchemaOf("p", <<Root(<<Rq("mine", TRef("p", "Thing")), Rq("theirs", TRef("q", "Thing")), Rq("theirs2", TRef("q", "Thing")),
+                                                              Rq("mine2", TRef("p", "Thing")), Rq("k", TRef("q", "Kind")), Rq("pk", TRef("p", "Kind"))>>),
+                                                          Obj("p", "Thing", TStruct(<<Rq("a", TScalar("int64"))>>)),
+                                                          Obj("p", "Kind", TEnum(<<Member("one", VStr("one"), "string")>>))>>),
+                                    SchemaOf("q", <<Obj("q", "Thing", TStruct(<<Rq("b", TString), Op("self", AsNullable(TRef("q", "Thing")))>>)),
+                                                    Obj("q", "Kind", TEnum(<<Member("x", VStr("x"), "string"), Member("y", VStr("y"), "string")>>))>>)>>),
   Sh("ir-intersection", {"intersection"}, One(<<Root(<<Rq("i", TRef("p", "Ext"))>>), Obj("p", "Base", TStruct(<<Rq("b", TString)>>)),
        Obj("p", "Ext", TInter(<<TRef("p", "Base"), TStruct(<<Rq("x", TScalar("int64"))>>)>>))>>)),
   Sh("ir-disjunction-scalars", {"union-scalars"}, One(<<Root(<<Rq("u", TDisj(<<TString, TScalar("int64")>>, "", <<>>)),
